@@ -304,12 +304,15 @@ def run(ctx, blocks, visit, new_acc, tasks_per_block=None):
         "points_also_judged_via_parse_cvss_from_text": sum(a.get("via_text", 0) for a in accs),
         "points_also_judged_after_hash_and_compare": sum(a.get("via_hashed", 0) for a in accs),
         "points_also_judged_on_a_str_subclass_argument": sum(a.get("via_strsub", 0) for a in accs),
+        "points_also_judged_on_a_copy": sum(a.get("via_copied", 0) for a in accs),
+        "points_also_judged_after_a_pickle_round_trip": sum(a.get("via_pickled", 0) for a in accs),
         "points_judged_again_from_a_second_thread": sum(a.get("second_thread", 0) for a in accs),
     }
     for k in ("depth_phase_visits", "histories_from_fresh_process", "history_visits",
               "tasks_run_after_the_prior_history", "tasks", "points_also_judged_via_from_rh_vector",
               "points_also_judged_via_parse_cvss_from_text", "points_also_judged_after_hash_and_compare",
-              "points_judged_again_from_a_second_thread", "points_also_judged_on_a_str_subclass_argument"):
+              "points_judged_again_from_a_second_thread", "points_also_judged_on_a_str_subclass_argument",
+              "points_also_judged_on_a_copy", "points_also_judged_after_a_pickle_round_trip"):
         ctx.depth_stats[k] += prev.get(k, 0)
     return accs + list(haccs)
 
